@@ -52,6 +52,12 @@ type ConcSpec struct {
 	Writers []Writer   `json:"writers"`
 	Readers []Reader   `json:"readers"`
 	Shared  []Shared   `json:"shared,omitempty"` // files written and read through ONE fid by several goroutines, see shared.go
+	// Failed: calls answered with Rerror, made one after the other before the
+	// goroutines start; FailedDuring: made FailRounds times over by one more
+	// goroutine while the others run. See failed.go.
+	Failed       []FailCall `json:"failed,omitempty"`
+	FailedDuring []FailCall `json:"failed_during,omitempty"`
+	FailRounds   int        `json:"fail_rounds,omitempty"`
 }
 
 // chunk returns the self-describing payload of chunk i of writer w: a header
@@ -149,10 +155,71 @@ func runConc(c *Case) error {
 	}
 
 	n := len(sp.Writers) + len(sp.Readers)
-	errs := make([]error, n+len(sp.Shared))
-	ops := make([]int, n+len(sp.Shared))
+
+	// calls that fail, before anything runs concurrently
+	for i := range sp.Failed {
+		fc := &sp.Failed[i]
+		cl := pickClient(cls, fc.Conn)
+		failed, err := runFailCall(cl, root, pfx, fmt.Sprintf("x%d", i), fc)
+		hx.Eval()
+		failCoverage(cl, fc, "before", failed, n)
+		if err != nil {
+			return err
+		}
+	}
+	if len(sp.Failed) > 0 {
+		pfx += fmt.Sprintf("after %d calls on the same client(s) that were expected to fail: ", len(sp.Failed))
+	}
+
+	errs := make([]error, n+len(sp.Shared)+1)
+	ops := make([]int, n+len(sp.Shared)+1)
 	var wg sync.WaitGroup
 	start := make(chan struct{})
+	// the first failure ends the wait for the others (a defect that corrupts
+	// one request often leaves another goroutine waiting for ever)
+	firstErr := make(chan error, 1)
+	note := func(err error) {
+		if err != nil {
+			select {
+			case firstErr <- err:
+			default:
+			}
+		}
+	}
+
+	// one more goroutine keeps making calls that fail
+	duringFailed := make([]bool, len(sp.FailedDuring))
+	if len(sp.FailedDuring) > 0 {
+		wg.Add(1)
+		go func() {
+			slot := n + len(sp.Shared)
+			defer wg.Done()
+			defer func() {
+				if p := recover(); p != nil {
+					errs[slot] = fmt.Errorf("%sgoroutine making failing calls: panic: %v", pfx, p)
+					note(errs[slot])
+				}
+			}()
+			<-start
+			rounds := sp.FailRounds
+			if rounds < 1 {
+				rounds = 1
+			}
+			for r := 0; r < rounds; r++ {
+				for i := range sp.FailedDuring {
+					fc := &sp.FailedDuring[i]
+					failed, err := runFailCall(pickClient(cls, fc.Conn), root, pfx, fmt.Sprintf("y%d", i), fc)
+					ops[slot]++
+					duringFailed[i] = duringFailed[i] || failed
+					if err != nil {
+						errs[slot] = err
+						note(err)
+						return
+					}
+				}
+			}
+		}()
+	}
 
 	// files shared by several goroutines through one fid (shared.go)
 	smodels := make([][]byte, len(sp.Shared))
@@ -167,6 +234,7 @@ func runConc(c *Case) error {
 			defer wg.Done()
 			<-start
 			ops[n+si], errs[n+si] = runShared(clnt, pfx, u, si, &sp.Shared[si], smodels[si])
+			note(errs[n+si])
 		}(si)
 	}
 
@@ -177,6 +245,7 @@ func runConc(c *Case) error {
 			defer func() {
 				if p := recover(); p != nil {
 					errs[wi] = fmt.Errorf("%swriter %d: panic: %v", pfx, wi, p)
+					note(errs[wi])
 				}
 			}()
 			<-start
@@ -186,6 +255,7 @@ func runConc(c *Case) error {
 			clnt, u := cl.clnt, cl.u
 			fail := func(format string, a ...interface{}) {
 				errs[wi] = fmt.Errorf("%swriter %d (%s on %s%s): %s", pfx, wi, w.Helper, name, cl.where(w.Conn, len(cls)), fmt.Sprintf(format, a...))
+				note(errs[wi])
 			}
 			var file *go9p.File
 			var err error
@@ -283,6 +353,7 @@ func runConc(c *Case) error {
 			defer func() {
 				if p := recover(); p != nil {
 					errs[slot] = fmt.Errorf("%sreader %d: panic: %v", pfx, ri, p)
+					note(errs[slot])
 				}
 			}()
 			<-start
@@ -293,6 +364,7 @@ func runConc(c *Case) error {
 			clnt, u := cl.clnt, cl.u
 			fail := func(format string, a ...interface{}) {
 				errs[slot] = fmt.Errorf("%sreader %d (%s on %s%s, %d-byte file, %d-byte buffers): %s", pfx, ri, r.Helper, name, cl.where(r.Conn, len(cls)), len(model), r.Count, fmt.Sprintf(format, a...))
+				note(errs[slot])
 			}
 			cnt := r.Count
 			if cnt == 0 {
@@ -361,6 +433,14 @@ func runConc(c *Case) error {
 	close(start)
 	select {
 	case <-done:
+	case err := <-firstErr:
+		// a violation is on record: give the others a moment, then report it
+		// whether or not they come back (the goroutines may stay behind)
+		select {
+		case <-done:
+		case <-time.After(10 * time.Second):
+		}
+		return err
 	case <-time.After(180 * time.Second):
 		// only detects a hang; the goroutines stay behind
 		return fmt.Errorf("harness: concurrent case did not finish within 180 s")
@@ -394,6 +474,13 @@ func runConc(c *Case) error {
 	}
 	for si := range sp.Shared {
 		sharedCoverage(nm, c.Dotu, u, &sp.Shared[si])
+	}
+	for i := range sp.FailedDuring {
+		fc := &sp.FailedDuring[i]
+		failCoverage(pickClient(cls, fc.Conn), fc, "among", duringFailed[i], n)
+	}
+	if len(sp.Failed) > 0 {
+		hx.ExtraAdd("concurrent_cases_after_failed_calls", 1)
 	}
 	for _, err := range errs {
 		if err != nil {
